@@ -75,8 +75,9 @@ def classify(fn, inner):
             return 'pipe.input'
         if any(t.startswith('core::ops::function::Fn') for t in tr):
             return 'pipe.process'
-    # test module of the crate creates its own mutexes: classify by type, flagged
-    return 'UNCLASSIFIED:Mutex<%s>@%s' % (inner, fn.root or fn.name)
+    # a mutex the role table does not know: it is its own class, named by what it protects, and takes part in the lock-order and
+    # nothing-foreign-or-blocking-under-a-lock analyses like every internal lock (the role-specific rules have nothing to say about it)
+    return 'auto:Mutex<%s>' % inner
 
 
 def guard_locals(fn):
